@@ -122,3 +122,42 @@ fn tab_step_2x3() {
 // symbolic path length 900 s / 10 GB without a verdict; with a concrete length, a two-level array and the non-final
 // index constrained to the out-of-range values 700 s without a verdict. `current = &v[i]` is a symbolic pointer as
 // soon as the guard is symbolic, and CBMC then explores the clone of every variant (graphs with their hash maps).)
+
+// ---------------------------------------------------------------- span (C18: rendering an error against the source)
+// `InputSpan::span_text` cuts the reported span out of the source text; its fields are public (and settable from the
+// wasm side), its documented contract is "Err if the span is out of bounds". For ALL (start, len) in u32 x u32 over a
+// text with one-, two- and three-byte characters: the call returns, Ok exactly when the span lies inside the text on
+// character boundaries, and then it is that slice. `format!` of the error text is stubbed out.
+fn stub_format_span(_a: std::fmt::Arguments<'_>) -> String {
+    String::new()
+}
+#[kani::proof]
+#[kani::unwind(12)]
+#[kani::stub(alloc::fmt::format, stub_format_span)]
+fn span_text_total() {
+    let text = "a\u{2264}b\u{e9}c"; // bytes: a(1) <=(3) b(1) e'(2) c(1) = 8
+    let s = crate::utils::InputSpan { start_line: 1, start_column: 1, start: kani::any(), len: kani::any(), tempered: false };
+    let r = s.span_text(text);
+    let (st, ln) = (s.start as u64, s.len as u64);
+    let boundary = |p: u64| p == 0 || p == 1 || p == 4 || p == 5 || p == 7 || p == 8;
+    let inside = st + ln <= 8 && boundary(st) && boundary(st + ln);
+    assert!(r.is_ok() == inside);
+    if let Ok(t) = &r {
+        assert!(t.len() as u64 == ln);
+    }
+    std::mem::forget(r);
+}
+#[kani::proof]
+#[kani::unwind(12)]
+#[kani::stub(alloc::fmt::format, stub_format_span)]
+fn span_reach_witness() {
+    let text = "a\u{2264}b\u{e9}c";
+    let s = crate::utils::InputSpan { start_line: 1, start_column: 1, start: kani::any(), len: kani::any(), tempered: false };
+    let r = s.span_text(text);
+    if let Ok(t) = &r {
+        if t.len() == 3 {
+            assert!(false); // must be reported FAILED
+        }
+    }
+    std::mem::forget(r);
+}
